@@ -309,7 +309,8 @@ def r12_5(cx):
 
 
 from rules.prefilter import r05_3
-RULES = [('R12.2', r12_loops), ('R12.4', r12_4), ('R12.5', r12_5), ('R05.3', r05_3)]
+from rules.C13 import r13_2
+RULES = [('R12.2', r12_loops), ('R12.4', r12_4), ('R12.5', r12_5), ('R05.3', r05_3), ('R13.2', r13_2)]
 
 CLAIM = """Static decision of the splice mechanism for every path of the four replace routines: the iterator source, the three per-match
 events with their exact slice bounds and order, the two definitions of last_match, the closure-result exit, the tail append before
